@@ -1,8 +1,8 @@
 SPECIFICATION Spec
 CONSTANTS
   NodeKinds = {"numa4", "share3", "plain4"}
-  AllocKinds = {"b10", "b05", "b15", "u05"}
-  ReallocKinds = {"cpu+", "cpu-", "mem+", "mem-", "keep", "unbind", "bind"}
+  AllocKinds = {"b10", "b05", "b15", "u05", "ulim"}
+  ReallocKinds = {"cpu+", "cpu-", "mem+", "mem-", "keep", "unbind", "bind", "memlim+", "cpureq-"}
   Slots = {1, 2}
   Depth = 3
 CONSTRAINT EmitHist
